@@ -56,10 +56,7 @@ def load_spec(pid):
 def regenerate():
     """T1/T2: rebuild the translator and fact extractor, regenerate SemaModel/Generated from the
     working tree.  Files are replaced only when their content changed (keeps lake incremental);
-    stale generated files are removed.  Returns (ok, message, stale): when a tool fails, the files
-    of the tools (and of the go2lean modules) that did succeed are installed, and `stale` names the
-    generated files that were NOT regenerated (they are left as they were, so that the rest of the
-    Lean project still builds); the caller decides which properties depend on them."""
+    stale generated files are removed.  Returns (ok, message)."""
     os.makedirs(BUILD, exist_ok=True)
     msgs = []
     ok = True
@@ -83,14 +80,16 @@ def regenerate():
             msgs.append(f"tools/{tool} could not translate the working tree:\n{out.strip()}")
     gen = os.path.join(LEAN, "SemaModel", "Generated")
     os.makedirs(gen, exist_ok=True)
+    # Every module that was produced is installed; a module that was NOT produced on this run (its tool
+    # refused the working tree, wholly or for that module) is removed, never kept from an earlier run:
+    # the proof modules and drivers that import it then fail to build, and only those.
     new = set(os.listdir(tmp))
-    stale = set()
     for f in os.listdir(gen):
         if f not in new:
+            os.remove(os.path.join(gen, f))
             if ok:
-                os.remove(os.path.join(gen, f))
-            else:
-                stale.add(f)
+                continue
+            msgs.append(f"Generated/{f} was not produced on this run and has been removed")
     for f in new:
         a, b = os.path.join(tmp, f), os.path.join(gen, f)
         if not os.path.exists(b) or open(a, "rb").read() != open(b, "rb").read():
@@ -98,54 +97,7 @@ def regenerate():
     shutil.rmtree(tmp, ignore_errors=True)
     from verifcore import genmain
     genmain.generate(LEAN)
-    return ok, "\n".join(msgs), stale
-
-
-def edited_files():
-    """files of the repository's working tree that differ from its HEAD (None: not known — not a git tree, or the
-    tree is clean, i.e. the change was committed: then nothing can be said about where it is)"""
-    try:
-        rc, out, _ = sh(["git", "-C", REPO, "status", "--porcelain", "--untracked-files=all"])
-    except OSError:
-        return None
-    if rc != 0:
-        return None
-    files = [l[3:].split(" -> ")[-1].strip() for l in out.splitlines() if len(l) > 3]
-    return files or None
-
-
-def anchor_files(pid):
-    try:
-        for l in open(os.path.join(VERIF, "properties.jsonl")):
-            d = json.loads(l)
-            if d.get("id") == pid:
-                return set(d.get("anchors", {}).get("files", []))
-    except (OSError, ValueError):
-        pass
-    return set()
-
-
-def generated_deps(pid, modules):
-    """file names under SemaModel/Generated that the given Lean modules and the property's model driver
-    import, directly or not"""
-    todo = list(modules) + [f"SemaModel.{pid}.Driver"]
-    seen, gens = set(), set()
-    while todo:
-        m = todo.pop()
-        if m in seen:
-            continue
-        seen.add(m)
-        if m.startswith("SemaModel.Generated."):
-            gens.add(m.split(".")[-1] + ".lean")
-            continue
-        path = os.path.join(LEAN, *m.split(".")) + ".lean"
-        if not os.path.exists(path):
-            continue
-        for l in open(path, errors="replace"):
-            mm = re.match(r"\s*import\s+(\S+)", l)
-            if mm and mm.group(1).startswith("SemaModel"):
-                todo.append(mm.group(1))
-    return gens
+    return ok, "\n".join(msgs)
 
 
 def lake_build(targets):
@@ -227,8 +179,17 @@ def build_harness(name):
     return rc == 0, o, out
 
 
+def driver_target(pid):
+    return "semadriver_" + pid.lower()
+
+
+def driver_exe(pid):
+    """the compiled model of ONE property (lean/Main<pid>.lean); accepts the property id as an optional first argument"""
+    return os.path.join(LEAN, ".lake", "build", "bin", driver_target(pid))
+
+
 def run_driver(pid, ops_path, out_path, extra_args=()):
-    exe = os.path.join(LEAN, ".lake", "build", "bin", "semadriver")
+    exe = driver_exe(pid)
     with open(ops_path) as fin, open(out_path, "w") as fout:
         p = subprocess.run([exe, pid, *extra_args], stdin=fin, stdout=fout, stderr=subprocess.PIPE, text=True)
     return p.returncode == 0, p.stderr
@@ -298,21 +259,10 @@ def main(argv):
     compared = 0
 
     with Lock():
-        ok, msg, stale = regenerate()
-        if not ok:
-            # a tool could not read the working tree.  That breaks the tie of THIS property only if one of the
-            # generated files it depends on was not regenerated (nothing known to be stale: assume it does)
-            # … or if a file the property is anchored in was edited: some extractor cannot follow that edit, and the
-            # extractors of this property may simply not look at the part that changed (a change of cluster/sync.go that
-            # only tools/facts_c14 refuses still concerns C13, which is anchored there too)
-            hit = sorted(stale & generated_deps(pid, spec["lean_modules"])) if stale else ["?"]
-            if not hit:
-                edited = edited_files()
-                hit = ["?"] if edited is None else sorted(set(edited) & anchor_files(pid))
-            if hit:
-                broken.append(("translator", "tools/go2lean|facts", msg + "\nnot regenerated and used by this property / edited files this property is anchored in: " + ", ".join(hit)))
-            else:
-                log("a fact extractor / the translator failed on files this property does not depend on (not regenerated: " + ", ".join(sorted(stale)) + "); see the checks of the properties that use them")
+        gen_ok, gen_msg = regenerate()
+        gen_fatal = (not gen_ok) and gen_msg.startswith("building tools/")
+        if gen_fatal:
+            broken.append(("translator", "tools (build)", gen_msg))
         # proof obligations
         ok, out, errs, dt = lake_build(spec["lean_modules"])
         log(f"lake build {' '.join(spec['lean_modules'])}: {'ok' if ok else 'FAILED'} ({dt:.1f}s)")
@@ -351,8 +301,17 @@ def main(argv):
             if rc != 0:
                 broken.append(("leanchecker", "leanchecker", o[-3000:]))
         # driver
-        dok, dout, _, dt = lake_build(["semadriver"])
-        log(f"lake build semadriver: {'ok' if dok else 'FAILED'} ({dt:.1f}s)")
+        dok, dout, _, dt = lake_build([driver_target(pid)])
+        log(f"lake build {driver_target(pid)}: {'ok' if dok else 'FAILED'} ({dt:.1f}s)")
+        if not gen_ok and not gen_fatal:
+            # A translator / fact extractor refused (part of) the working tree; what it could not produce has been
+            # removed from Generated/.  That breaks THIS property's tie exactly if one of its proof modules or its
+            # model driver imports a removed module, i.e. no longer builds.
+            if not dok or any(b[0] == "proof" for b in broken):
+                broken.insert(0, ("translator", "tools/go2lean|facts", gen_msg))
+            else:
+                log("note: a translator / fact extractor refused part of the working tree; no module imported by this property's proofs or model driver is affected")
+                notes.append("translator refused part of the tree, unrelated to this property: " + gen_msg[:600])
         # harness
         hok, hout, hbin = build_harness(spec["harness"])
         if not hok:
@@ -379,7 +338,7 @@ def main(argv):
                 else:
                     disagreements, compared = diff_lines(os.path.join(rundir, "ops.txt"), os.path.join(rundir, "impl.txt"), os.path.join(rundir, "model.txt"))
             else:
-                broken.append(("driver-build", "semadriver", dout[-3000:]))
+                broken.append(("driver-build", driver_target(pid), dout[-3000:]))
     if disagreements:
         broken.append(("correspondence", f"{len(disagreements)}+ of {compared} op lines differ", json.dumps(disagreements[:5], indent=1)))
 
@@ -473,7 +432,7 @@ def main(argv):
 def replay(pid, spec, path):
     with Lock():
         hok, hout, hbin = build_harness(spec["harness"])
-        dok, dout, _, _ = lake_build(["semadriver"])
+        dok, dout, _, _ = lake_build([driver_target(pid)])
     if not hok:
         print(hout)
         return 2
